@@ -271,6 +271,25 @@ func resplitSig(sig hotstuff.QuorumSignature) hotstuff.QuorumSignature {
 	return nil
 }
 
+// retypeSig keeps signers and bytes entry by entry but presents them as a multi-signature of the other scheme.
+func retypeSig(sig hotstuff.QuorumSignature) hotstuff.QuorumSignature {
+	switch s := sig.(type) {
+	case crypto.Multi[*crypto.EDDSASignature]:
+		out := make(crypto.Multi[*crypto.ECDSASignature], 0, len(s))
+		for _, e := range s {
+			out = append(out, crypto.RestoreECDSASignature(e.ToBytes(), e.Signer()))
+		}
+		return out
+	case crypto.Multi[*crypto.ECDSASignature]:
+		out := make(crypto.Multi[*crypto.EDDSASignature], 0, len(s))
+		for _, e := range s {
+			out = append(out, crypto.RestoreEDDSASignature(e.ToBytes(), e.Signer()))
+		}
+		return out
+	}
+	return nil
+}
+
 // truncSig drops the last signer of a multi-signature.
 func truncSig(sig hotstuff.QuorumSignature, drop int) hotstuff.QuorumSignature {
 	if drop <= 0 {
